@@ -289,7 +289,29 @@ pub fn run() {
             },
             "proxydrop" => {
                 let weak = Arc::downgrade(&proxy);
-                drop(proxy);
+                let owned = a.get("owned").map(|s| s == "1").unwrap_or(false);
+                if owned {
+                    // the last handle on the proxy is owned by a route's callback: it is released on the router thread
+                    // itself, when that route closes
+                    let (otx, orx) = ipc::channel::<(u32, u32)>().unwrap();
+                    let g = Guard(log.clone(), 700);
+                    let keep = proxy.clone();
+                    proxy.add_route(
+                        orx.to_opaque(),
+                        Box::new(move |_m| {
+                            let _keep = (&g, &keep);
+                        }),
+                    );
+                    drop(proxy);
+                    std::thread::sleep(std::time::Duration::from_millis(20));
+                    drop(otx);
+                    let t1 = std::time::Instant::now();
+                    while weak.upgrade().is_some() && t1.elapsed().as_millis() < 3000 {
+                        std::thread::sleep(std::time::Duration::from_millis(2));
+                    }
+                } else {
+                    drop(proxy);
+                }
                 stop_ok = weak.upgrade().is_none();
                 // the router thread notices the loss of its proxy asynchronously: give it time to stop
                 // (every callback guard dropped), then probe the old routes
